@@ -91,8 +91,9 @@ static int line_to_instr(struct instr *instr_data, char *filtered_asm_str) {
   FAIL_IF_VAR(instr_data->key == INSTR_ERROR,
               "unsupported or illegal instruction: %s\n", asm_str);
   if (instr_data->imm && TYPE(instr_data->key, CONTROL_FLOW)) {
-    if (IN_RANGE(instr_data->cons, NEG80_32BIT, MAX_UNSIGNED_32BIT) ||
-        (instr_data->cons <= MAX_SIGNED_8BIT && !instr_data->keyword.is_long))
+    if ((IN_RANGE(instr_data->cons, NEG80_32BIT, MAX_UNSIGNED_32BIT) ||
+         instr_data->cons <= MAX_SIGNED_8BIT) &&
+        !instr_data->keyword.is_long)
       instr_data->keyword.is_short = true;
     else if (instr_data->cons > MAX_SIGNED_8BIT &&
              instr_data->keyword.is_short) {
